@@ -472,3 +472,42 @@ package stdlibspec
 //@ extern crypto/rand.Text
 //@   pure
 //@   ensures sepFree(result)
+
+// ---------------------------------------------------------------------------
+// crypto/cipher.AEAD, seen as an authenticated-encryption oracle (C17). sealed(g, nonce, pt)
+// is the ciphertext-with-tag the AEAD g produces; Open succeeds only on such a ciphertext
+// for the same nonce and returns that plaintext (unforgeability and correctness of AES-GCM
+// are ASSUMED, not proved). lastRead: the bytes the last successful io.ReadFull delivered.
+//@ spec func sealed(g cipher.AEAD, nonce string, pt string) string
+//@ spec func nonceSize(g cipher.AEAD) int
+//@ ghost var lastRead string
+//@ axiom nonce-size-positive: forall g cipher.AEAD :: nonceSize(g) > 0 && nonceSize(g) < 4096
+//@ axiom strOf-len: forall a Arr[int,byte], off int, n int :: 0 <= n && n < 4611686018427387904 ==> len(strOf(a, off, n)) == n
+//@ axiom strOf-split: forall a Arr[int,byte], off int, n int, k int :: 0 <= k && k <= n && n < 4611686018427387904 && 0 <= off && off < 4611686018427387904 ==> strOf(a, off, n) == strOf(a, off, k) + strOf(a, off + k, n - k)
+//@ iface crypto/cipher.AEAD.NonceSize(g)
+//@   pure
+//@   ensures result == nonceSize(g)
+//@ iface crypto/cipher.AEAD.Seal(g, dst, nonce, plaintext, additionalData)
+//@   pure
+//@   ensures bytesOf(result) == bytesOf(dst) + sealed(g, bytesOf(nonce), bytesOf(plaintext))
+//@ iface crypto/cipher.AEAD.Open(g, dst, nonce, ciphertext, additionalData)
+//@   assigns elems(dst)
+//@   ensures result1 == nil && len(dst) == 0 ==> old(bytesOf(ciphertext)) == sealed(g, old(bytesOf(nonce)), bytesOf(result0))
+//@ extern io.ReadFull(r, buf)
+//@   assigns elems(buf), lastRead
+//@   ensures result1 == nil ==> bytesOf(buf) == lastRead && result0 == len(buf)
+//@ extern (*encoding/base64.Encoding).DecodeString
+//@   pure
+//@ extern crypto/aes.NewCipher
+//@   pure
+//@   ensures result1 == nil ==> result0 != nil
+//@ extern crypto/cipher.NewGCM
+//@   pure
+//@   ensures result1 == nil ==> result0 != nil
+//@ extern context.Background
+//@   pure
+//@ extern context.WithTimeout
+//@   pure
+//@   ensures result0 != nil
+//@ extern cmp.Or
+//@   pure
